@@ -59,15 +59,15 @@ ASSUMPTIONS = [
 ]
 REQUIRED_CLASSES = ['given:repaired QuaternionArray object', 'given:near-pole', 'given:near-unit rows', 'in_degrees:other carrier', 'mode:random', 'mode:given', 'gyr_noise=0', 'acc_noise=0', 'mag_noise=0', 'gyr_noise>0', 'acc_noise>0',
                     'mag_noise>0', 'in_degrees', 'radians', 'normalized_mag', 'raw_mag', 'refs:default', 'refs:explicit',
-                    'mag_noise:request-honoured', 'N=10', 'given:piecewise', 'given:through-pole', 'integration:tight-bound', 'history:generate-again', 'history:two-objects', 'given:other layout / container']
+                    'mag_noise:request-honoured', 'N=10', 'given:piecewise', 'given:through-pole', 'integration:tight-bound', 'history:generate-again', 'history:unit-flag-assigned', 'history:two-objects', 'given:other layout / container']
 
 TOL = 1e-12
 DEG2RAD, RAD2DEG = rs.DEG2RAD, rs.RAD2DEG
 
 # ---- finite menus ------------------------------------------------------------------------------------------
-GYR = {'0': 0.0, 'def': None, 'big': 50.0}
-ACC = {'0': 0.0, 'def': None, 'big': 5.0}
-MAG = {'0': 0.0, 'def': None, 'mid': 100.0, 'big': 2.5e5}
+GYR = {'0': 0.0, 'def': None, 'big': 50.0, 'vec': np.array([0.0, 20.0, 0.0])}          # 'vec': a per-axis triple with silent axes
+ACC = {'0': 0.0, 'def': None, 'big': 5.0, 'vec': np.array([0.0, 0.0, 0.05])}
+MAG = {'0': 0.0, 'def': None, 'mid': 100.0, 'big': 2.5e5}          # (mag_noise is compared with a scalar inside generate(): a per-axis triple is not an input of that parameter)
 SPANS = {'wide': (0.0, 2.0 * math.pi), 'turns': (-2.0 * math.pi, 2.0 * math.pi), 'def': None, 'half': (-0.5 * math.pi, 0.5 * math.pi), 'small': (0.0, 0.3), 'list': [-0.1, 0.1], 'quarter': (0.0, 0.5 * math.pi)}
 YAWS = {'-': None, '0': 0.0, '45': 45.0, '-120': -120.0}
 REFS = {'def': None,
@@ -78,9 +78,9 @@ RATES = (0.1, 1.0, 3.0)
 
 def _noise_menu(full):
     if full:
-        return [(g, a, m) for g in GYR for a in ACC for m in MAG]
+        return [(g, a, m) for g in GYR for a in ACC for m in MAG if g != 'vec' and a != 'vec'] + [('vec', 'vec', 'mid'), ('vec', '0', '0'), ('0', 'vec', '0')]
     out = [(g, a, m) for g in ('0', 'def') for a in ('0', 'def') for m in ('0', 'def')]
-    out += [('big', 'big', 'big'), ('big', 'big', 'mid'), ('0', 'big', 'mid'), ('big', '0', 'big')]
+    out += [('big', 'big', 'big'), ('big', 'big', 'mid'), ('0', 'big', 'mid'), ('big', '0', 'big'), ('vec', 'vec', 'mid'), ('vec', '0', '0'), ('0', 'vec', '0')]
     return out
 
 
@@ -184,9 +184,9 @@ def _kwargs(gl, al, ml, deg, nmag, refs, span=None, yaw=None, degc='py'):
         kw['in_degrees'] = np.bool_(bool(deg))
     elif degc == 'int':
         kw['in_degrees'] = int(deg)
-    if GYR[gl] is not None: kw['gyr_noise'] = GYR[gl]
-    if ACC[al] is not None: kw['acc_noise'] = ACC[al]
-    if MAG[ml] is not None: kw['mag_noise'] = MAG[ml]
+    if GYR[gl] is not None: kw['gyr_noise'] = np.copy(GYR[gl]) if isinstance(GYR[gl], np.ndarray) else GYR[gl]
+    if ACC[al] is not None: kw['acc_noise'] = np.copy(ACC[al]) if isinstance(ACC[al], np.ndarray) else ACC[al]
+    if MAG[ml] is not None: kw['mag_noise'] = np.copy(MAG[ml]) if isinstance(MAG[ml], np.ndarray) else MAG[ml]
     if deg and degc == 'py': kw['in_degrees'] = True
     if nmag: kw['normalized_mag'] = True
     if REFS[refs] is not None:
@@ -313,7 +313,7 @@ def _judge(ctx, key, s, rec, N, freq, gl, al, ml, deg, nmag, refs, given=None):
         ctx.cls('mag_noise>0')
     requested = MAG[ml]
     if requested is not None:
-        ctx.cls('mag_noise:request-honoured' if float(sig_m.max()) == requested else 'mag_noise:request-replaced')
+        ctx.cls('mag_noise:request-honoured' if np.array_equal(np.asarray(sig_m, float), np.asarray(requested, float)) or (np.ndim(requested) == 0 and float(sig_m.max()) == requested) else 'mag_noise:request-replaced')
     sc = 1.0 if nmag else mn + 6.0 * float(sig_m.max())
     e, jm = _best(mag, lambda Z: post(mag_clean + Z * sig_m), cands)
     ctx.track('mag.reported-noise.rel', e / sc)
@@ -433,6 +433,20 @@ def _case(ctx, key, build, N, freq, combo, deg, nmag, refs, given=None):
             S.GENERATOR = old
         _judge(ctx, key + ' [after a second generate()]', s, rec2, N, freq, gl, al, ml, deg, nmag, refs, given)
         ctx.cls('history:generate-again')
+        # the public unit flag assigned on the live object, then generate() again: the object follows its CURRENT attributes
+        rec3 = _RecGen(2000 + (len(key) % 5))
+        old = S.GENERATOR
+        S.GENERATOR = rec3
+        try:
+            s.in_degrees = not bool(deg)
+            s.generate(s.rotations)
+        except Exception as ex:
+            ctx.expect(False, 'generate() after in_degrees was assigned on the object', key, f'{type(ex).__name__}: {ex}', 'new samples')
+            return facts
+        finally:
+            S.GENERATOR = old
+        _judge(ctx, key + ' [in_degrees assigned on the object, generate() again]', s, rec3, N, freq, gl, al, ml, 0 if deg else 1, nmag, refs, given)
+        ctx.cls('history:unit-flag-assigned')
     return facts
 
 
@@ -564,6 +578,7 @@ def run(ctx):
         cfgs = [(100.0, sp, yw, refs) for sp in spans for yw in yaws for refs in ('def', 'A') if thorough or refs == 'def' or yw == '-']
         cfgs.append((100.0, 'def', '-', 'U'))
         cfgs += [(100.0, 'wide', '-', 'def'), (100.0, 'turns', '-', 'def')]        # angle histories that pass +-180 degrees
+        cfgs += [(12.5, 'def', '-', 'def'), (59.94, 'half', '-', 'def')]           # sampling rates that are not a whole number of Hz
         if thorough:
             cfgs += [(f, 'def', '-', refs) for f in (25.0, 1000.0) for refs in ('def', 'A')]
         for f, sp, yw, refs in cfgs:
@@ -573,7 +588,7 @@ def run(ctx):
     names = _traj_names()
     ks = list(range(len(A.MENU))) if thorough else [A.seed_k(ctx.seed)]
     grngs = sorted({0, 1, int(ctx.seed)}) if thorough else sorted({0, int(ctx.seed)})
-    for f, N in (((100.0, 120), (25.0, 60), (100.0, 400), (1000.0, 52)) if thorough else ((100.0, 80), (25.0, 60))):
+    for f, N in (((100.0, 120), (25.0, 60), (100.0, 400), (1000.0, 52), (59.94, 60)) if thorough else ((100.0, 80), (25.0, 60), (59.94, 60))):
         q0s = ['I'] + [f'M{k}' for k in (ks if (f, N) == (100.0, 120) or not thorough else [A.seed_k(ctx.seed)])]
         for q0 in q0s:
             full = thorough and q0 == 'I'
